@@ -57,6 +57,12 @@ func ClosePoints(rng *wh.Rng, thorough bool) []Scenario {
 			out = append(out, sc)
 		}
 	}
+	// handleClose parked before its select while Stop / cancel ends the handler's context (no Close yet: the subscriber is not closed by the router)
+	for _, op := range []string{"stop:0", "cancel"} {
+		sc := Scenario{Handlers: []HandlerSpec{{}}, Conf: true, Seed: rng.Next(), Tag: "closept/kh/" + op}
+		sc.Prog = prog("add:0", "park:kh", "run", "wpark", "wrun", "emit:0:1", "whe:1", op, "nap:2", "rel", "wrr", "close:2", "wclose", "wacc")
+		out = append(out, sc)
+	}
 	// handleClose parked before its select: Close signals, Run cancels the context, then both alternatives are ready (D6)
 	for _, n := range []int{1, 2, 3} {
 		sc := Scenario{Conf: n == 1, Seed: rng.Next(), Tag: fmt.Sprintf("closept/kh/close/%d", n)}
